@@ -139,10 +139,14 @@ def St.malloc (s : St) (size align : Nat) : St × Option Nat :=
 
 /-- the allocator contract for an answer `addr` to a request `(size, align)` while `held`
 chunks (and the static at `E`) are outstanding -/
+def sumSize (cs : List Chunk) : Nat := (cs.map (·.size)).sum
+
 def mallocOK (E : Nat) (held : List Chunk) (size align addr : Nat) : Bool :=
   decide (addr ≠ 0) && decide (addr % align = 0) && decide (addr + size ≤ 2 ^ 63) &&
   (decide (addr + size ≤ E) || decide (E + FOOTER_SIZE ≤ addr)) &&
-  held.all (fun c => decide (addr + size ≤ c.data) || decide (c.data + c.size ≤ addr))
+  held.all (fun c => decide (addr + size ≤ c.data) || decide (c.data + c.size ≤ addr)) &&
+  -- outstanding bytes fit the address space (a consequence of disjointness, stated rather than derived)
+  decide (sumSize held + size ≤ 2 ^ 63)
 
 /-- sequencing: propagate every non-`ok` outcome unchanged -/
 @[inline] def bindO {α β : Type} (x : St × Outcome α) (f : St → α → St × Outcome β) : St × Outcome β :=
